@@ -413,6 +413,10 @@ func c13Quiet() bool {
 		if strings.Contains(hdr, "[semacquire") || strings.Contains(hdr, "[sync.") {
 			continue
 		}
+		// the session's own wait group (fix c551801) blocks on a channel, not on a semaphore
+		if strings.Contains(g, "erpc/v6.(*graceWaitGroup).Wait(") {
+			continue
+		}
 		if os.Getenv("C13_DEBUG") != "" {
 			fmt.Fprintln(os.Stderr, "BUSY:", g)
 		}
